@@ -7,7 +7,7 @@ from ._pointappender import IPointAppender
 from .compression import LazBackend
 from .errors import LaspyException
 from .header import LasHeader
-from .point.record import PackedPointRecord
+from .point.record import PackedPointRecord, ScaleAwarePointRecord
 from .vlrs.vlrlist import VLRList
 
 
@@ -90,8 +90,30 @@ class LasAppender:
             self.header.maxs = np.ones(3, dtype=np.float64) * f64info.min
             self.header.mins = np.ones(3, dtype=np.float64) * f64info.max
 
+        restore_needed = False
+        if isinstance(points, ScaleAwarePointRecord) and (
+            np.any(points.scales != self.header.scales)
+            or np.any(points.offsets != self.header.offsets)
+        ):
+            # same as in LasWriter.write_points: the points are expressed
+            # with other scales/offsets than the file's
+            saved_offsets, saved_scales = points.offsets, points.scales
+            saved_X, saved_Y, saved_Z = (
+                points.X.copy(),
+                points.Y.copy(),
+                points.Z.copy(),
+            )
+            points.change_scaling(
+                scales=self.header.scales, offsets=self.header.offsets
+            )
+            restore_needed = True
+
         self.points_appender.append_points(points)
         self.header.grow(points)
+
+        if restore_needed:
+            points.offsets, points.scales = saved_offsets, saved_scales
+            points.X, points.Y, points.Z = saved_X, saved_Y, saved_Z
 
     def close(self) -> None:
         self.points_appender.done()
